@@ -11,6 +11,7 @@ mutual
   def dallocs : DShape → Nat
     | .scalar => 0
     | .chr => 1
+    | .numb hasSu => if hasSu then 3 else 2
     | .lst es => if es.isEmpty then 0 else 1 + dallocsList es
   def dallocsList : List DShape → Nat
     | [] => 0
@@ -33,6 +34,38 @@ mutual
         exact ⟨trivial, (Bad.alloc hk).free _, h.fail.free⟩
       · left
         exact ⟨_, rfl, Good.alloc hk, h.alloc.perm (by perm_ac)⟩
+    | .numb hasSu, s, L, h => by
+      simp only [deserInto, dallocs]
+      rcases alloc_cases k s with ⟨hk, ha⟩ | ⟨hk, ha⟩ <;> simp only [ha]
+      · right
+        exact ⟨trivial, ((Bad.alloc hk).free _).mono (by split <;> omega), h.fail.free⟩
+      · have g1 := Good.alloc hk
+        have i1 := h.alloc
+        generalize ({ count := s.count + 1, evs := s.evs ++ [.alloc (s.count + 1)] } : St) = s1 at g1 i1 ⊢
+        generalize s.count + 1 = t at g1 i1 ⊢
+        cases hasSu with
+        | false =>
+          simp only [Bool.false_eq_true, if_false]
+          rcases alloc_cases k s1 with ⟨hk, ha⟩ | ⟨hk, ha⟩ <;> simp only [ha]
+          · right
+            exact ⟨trivial, g1.bad' (((Bad.alloc hk).free _).free _) (by omega), Inv.free (Inv.free i1.fail)⟩
+          · left
+            exact ⟨_, rfl, g1.trans (Good.alloc hk), i1.alloc.perm (by perm_ac)⟩
+        | true =>
+          simp only [if_true]
+          rcases alloc_cases k s1 with ⟨hk, ha⟩ | ⟨hk, ha⟩ <;> simp only [ha]
+          · right
+            exact ⟨trivial, g1.bad' (((Bad.alloc hk).free _).free _) (by omega), Inv.free (Inv.free i1.fail)⟩
+          · have g2 := g1.trans (Good.alloc hk)
+            have i2 := i1.alloc
+            generalize ({ count := s1.count + 1, evs := s1.evs ++ [.alloc (s1.count + 1)] } : St) = s2 at g2 i2 ⊢
+            generalize s1.count + 1 = u at g2 i2 ⊢
+            rcases alloc_cases k s2 with ⟨hk, ha⟩ | ⟨hk, ha⟩ <;> simp only [ha]
+            · right
+              exact ⟨trivial, g2.bad' ((((Bad.alloc hk).free _).free _).free _) (by omega),
+                Inv.free (Inv.free (Inv.free i2.fail))⟩
+            · left
+              exact ⟨_, rfl, g2.trans (Good.alloc hk), i2.alloc.perm (by perm_ac)⟩
     | .lst [], s, L, h => by
       left
       simp only [deserInto, dallocs, List.isEmpty_nil, if_true]
@@ -97,7 +130,7 @@ def deserAllocs (elems : List DShape) : Nat := if elems.isEmpty then 0 else 1 + 
 theorem deserialize_spec (k : Nat) (elems : List DShape) (s : St) (L : List Nat) (h : Inv s L) :
     (∃ g, (deserialize k elems s).1 = OK ∧ (deserialize k elems s).2.1 = some g ∧
         Good k (deserAllocs elems) s (deserialize k elems s).2.2 ∧ Inv (deserialize k elems s).2.2 (g ++ L)) ∨
-    ((deserialize k elems s).1 = ERROR ∧ (deserialize k elems s).2.1 = none ∧
+    ((deserialize k elems s).1 = MEMORY_ERROR ∧ (deserialize k elems s).2.1 = none ∧
         Bad k (deserAllocs elems) s (deserialize k elems s).2.2 ∧ Inv (deserialize k elems s).2.2 L) := by
   cases elems with
   | nil =>
